@@ -293,7 +293,8 @@ def prog(env, case):
 def cases(tier):
     cs = []
     quick = ['gradient_descent', 'heavy_ball', 'accelerated_gradient_convex', 'proximal_point', 'proximal_gradient',
-             'douglas_rachford', 'frank_wolfe', 'halpern', 'proximal_point_operators', 'optimistic_gradient']
+             'douglas_rachford', 'frank_wolfe', 'halpern', 'proximal_point_operators', 'optimistic_gradient',
+             'subgradient_method']
     names = quick if tier == 'quick' else list(EXAMPLES)
     for nm in names:
         for n in ((1,) if tier == 'quick' else (1, 2)):
